@@ -90,7 +90,7 @@ def _median_int(eng, ws, vs):
     return (lo + hi) / 2
 
 
-def slice_stats(eng, orient="rows", nvals=3, none_at=(), nrows=2, subtotal=True, integer=False, median=False, sd_first=False):
+def slice_stats(eng, orient="rows", nvals=3, none_at=(), nrows=2, subtotal=True, integer=False, median=False, sd_first=False, squared=False):
     vals = _values(eng, nvals, none_at)
     ins = [C.subtotal("S", [1, 2])] if subtotal else []
     if orient == "rows":
@@ -101,6 +101,12 @@ def slice_stats(eng, orient="rows", nvals=3, none_at=(), nrows=2, subtotal=True,
     if integer:
         for n, idx in enumerate(np.ndindex(w.shape)):
             w.W[idx] = eng.intcount("k%d" % n)
+    if squared:
+        # a squared-weights measure changes the pairwise column tests, never the scale statistics
+        SQ = w.free_measure("weighted_squared_count", "q")
+        for idx in np.ndindex(w.shape):
+            if eng.symbolic:
+                eng.assume(Q.lift(SQ[idx]) > 0)
     part = Cube(w.response()).partitions[0]
     vi_vec, vi_val = (0, 1) if orient == "rows" else (1, 0)
     vec_valid = w.valid(vi_vec)
@@ -249,6 +255,7 @@ def specs(tier):
     for orient in ("rows", "cols"):
         add("%s mean/sd/se 3 values" % orient, "slice_stats", dict(orient=orient))
         add("%s mean/sd/se one category without value" % orient, "slice_stats", dict(orient=orient, none_at=[1]))
+        add("%s mean/sd/se with a squared-weights measure" % orient, "slice_stats", dict(orient=orient, squared=True))
         add("%s sd/se read before the mean, one category without value" % orient, "slice_stats", dict(orient=orient, none_at=[1], sd_first=True))
         add("%s median 3 values" % orient, "slice_stats", dict(orient=orient, integer=True, median=True, subtotal=False, nrows=2), max_paths=2500)
         add("%s median one category without value" % orient, "slice_stats", dict(orient=orient, none_at=[0], integer=True, median=True, subtotal=True), max_paths=2500)
